@@ -2,7 +2,7 @@
 import itertools
 
 PROPS_FILE = "Props_C18.v"
-RULE = ("engine c18: programs of 2-3 threads over 2-3 keys replayed on the real FrimMap under a chosen interleaving "
+RULE = ("engine c18: programs (all public FrimMap calls incl. entry().or_insert_with and is_empty) of 2-3 threads over 2-3 keys replayed on the real FrimMap under a chosen interleaving "
         "(every prefix schedule of bounded length for small program sets, random schedules for larger ones); a case is "
         "non-trivial when at least one compare-and-swap of an rcu writer failed and was retried (token x>0); engine c18seq: random single-thread call sequences, non-trivial when a "
         "remove or get finds a value; distinct = distinct case text")
@@ -19,7 +19,8 @@ ASSUMPTIONS = [
     "thread-local code between two accesses of the shared cell commutes with the other threads (one scheduler step = one access)",
     "the predicate given to retain() is a pure function of key and value",
     "replace() is given a FrimMap built through the API (distinct keys)",
-    "entry().or_insert_with() is a get followed by an insert and is covered as these two calls, not as one atomic call",
+    "entry(k).or_insert_with(f): f is a pure function returning a value (the engines park the thread inside it); what the theorem "
+    "promises for it is stated in call_ok: one lookup (occupied), or a lookup and later an insert of the caller's own value (vacant)",
 ]
 
 KEYS = [1, 2]
@@ -27,7 +28,7 @@ KEYS = [1, 2]
 
 def op_text(rng, fresh, keys=KEYS, weights=None):
     k = rng.choice(keys)
-    kind = rng.weighted(weights or [("I", 26), ("R", 30), ("G", 8), ("H", 5), ("L", 5), ("E", 10), ("T", 8), ("P", 8)])
+    kind = rng.weighted(weights or [("I", 22), ("R", 28), ("N", 16), ("G", 8), ("H", 4), ("L", 5), ("Z", 2), ("E", 9), ("T", 8), ("P", 8)])
     if kind == "I":
         fresh[0] += 1
         return "I %d %d" % (k, fresh[0])
@@ -41,6 +42,11 @@ def op_text(rng, fresh, keys=KEYS, weights=None):
         return "L"
     if kind == "E":
         return "E"
+    if kind == "Z":
+        return "Z"
+    if kind == "N":
+        fresh[0] += 1
+        return "N %d %d" % (k, fresh[0])
     if kind == "T":
         p = rng.choice(["kle", "kgt", "kne", "vle", "vgt"])
         c = rng.choice(keys) if p[0] == "k" else rng.below(fresh[0] + 2)
@@ -80,6 +86,13 @@ SMALL = [
     ["p 0 I 1 7", "p 1 I 2 8", "p 0 L", "p 1 L"],
     ["i 1 7", "p 0 R 1", "p 1 R 1", "p 2 R 1"],
     ["i 1 7", "p 0 R 1", "p 1 R 1", "p 2 I 1 8"],
+    # entry(k).or_insert_with(): two tasks, one absent key (C18_entry_race / C18_entry_append_refuted)
+    ["p 0 N 1 7", "p 1 N 1 8", "p 0 L", "p 1 R 1", "p 1 G 1"],
+    ["p 0 N 1 7", "p 1 N 1 8", "p 2 L", "p 2 R 1", "p 2 G 1"],
+    ["i 2 9", "p 0 N 1 7", "p 0 G 1", "p 1 R 1", "p 1 I 1 8", "p 1 E"],        # vacant entry overtaken by remove / insert
+    ["i 1 7", "p 0 N 1 8", "p 0 Z", "p 1 R 1", "p 1 N 1 9", "p 1 L"],          # occupied, removed, asked for again
+    ["i 1 7", "p 0 N 2 7", "p 0 E", "p 1 P 2 5", "p 1 N 1 6", "p 1 H 2"],      # entry against the plain store of replace
+    ["i 1 7", "i 2 9", "p 0 R 1", "p 1 I 3 8", "p 1 G 3", "p 0 L"],            # a write lands between a remove's load and its swap
 ]
 
 
@@ -128,6 +141,19 @@ def classify(case, out):
         ks.append("replace")
     if "T" in ops:
         ks.append("retain")
+    if "Z" in ops:
+        ks.append("is_empty")
+    entries = [o.split()[3:5] for o in case.split(";") if o.startswith("p ") and o.split()[2] == "N"]
+    if entries:
+        ks.append("entry")
+        own = {}
+        for k, v in entries:
+            if ("v" + v) in toks:
+                own[k] = own.get(k, 0) + 1
+        if any(n >= 2 for n in own.values()):
+            ks.append("entry: default function ran in two tasks for one key")
+        if any(t.startswith("v") and t[1:].isdigit() and t[1:] not in [v for _, v in entries] for t in toks):
+            ks.append("entry: occupied")
     return ks
 
 
@@ -140,6 +166,19 @@ def corpus():
         "p 0 I 1 7;p 0 P 2 5 3 6;p 1 R 1;p 1 E;p 2 R 1;p 2 T kle 2;s 0;s 0;s 1;s 2;s 2;s 1;s 1",
         # iteration keeps its snapshot while writers go on
         "i 1 7;i 2 9;p 0 E;p 1 R 1;p 1 I 3 4;p 1 T kne 2;s 0;s 1;s 1;s 1;s 1;s 1;s 1;s 0",
+        # C18_entry_race: two tasks find the same key vacant before either writes; both get their own value, the later insert
+        # wins, ONE entry (C18_entry_append_refuted: an insert that does not filter the key out leaves two)
+        "p 0 N 1 7;p 1 N 1 8;p 2 L;p 2 R 1;p 2 G 1;s 0;s 1;s 0;s 0;s 1;s 1;s 2;s 2;s 2;s 2",
+        "i 9 90;p 0 N 1 10;p 1 N 1 20;p 0 G 1;p 0 L;p 0 E;p 0 R 1;p 0 G 1;p 0 R 1;p 0 L;s 0;s 1;s 1;s 1;s 0;s 0",
+        # an entry found occupied; one found vacant whose key is filled and removed again before its insert lands
+        "i 1 7;p 0 N 1 8;p 0 Z;p 1 N 2 9;p 2 I 2 5;p 2 R 2;p 2 Z;s 1;s 2;s 2;s 2;s 2;s 0;s 1;s 1",
+        # the lost-write schedule: remove loads, another task's insert completes (and is seen), remove's swap must fail and
+        # be redone on the new vector (a remove that publishes with a plain store wipes the insert out)
+        "i 1 7;p 0 R 1;p 1 I 2 8;p 1 G 2;s 0;s 1;s 1;s 1;s 0;s 0",
+        "i 1 7;p 0 R 1;p 0 G 2;p 0 E;p 1 I 2 8;s 0;s 1;s 1;s 0",
+        # the same for retain against replace: the replaced content must not come back
+        "i 1 7;i 2 9;p 0 T kne 1;p 0 E;p 1 P 7 70;p 1 E;s 0;s 1;s 1;s 1;s 0;s 0",
+        "i 1 7;i 2 9;p 0 T kne 1;p 1 I 3 5;s 0;s 1;s 1;s 0",
     ]
 
 
@@ -150,11 +189,11 @@ def gen_seq(rng, tier):
         if i % 5 == 0:
             # more than 8 entries: the SmallVec spills to the heap
             keys = list(range(1, 16))
-            w = [("I", 60), ("R", 12), ("G", 8), ("H", 4), ("L", 6), ("E", 5), ("T", 2), ("P", 3)]
+            w = [("I", 50), ("N", 10), ("R", 12), ("G", 8), ("H", 4), ("L", 5), ("Z", 1), ("E", 5), ("T", 2), ("P", 3)]
             yield ";".join(op_text(rng, fresh, keys, w) for _ in range(rng.range(12, 40)))
         else:
             keys = [1, 2, 3] if rng.chance(60) else list(range(1, 12))
-            w = [("I", 34), ("R", 20), ("G", 10), ("H", 6), ("L", 8), ("E", 8), ("T", 8), ("P", 6)]
+            w = [("I", 26), ("N", 12), ("R", 20), ("G", 8), ("H", 6), ("L", 6), ("Z", 4), ("E", 6), ("T", 7), ("P", 5)]
             yield ";".join(op_text(rng, fresh, keys, w) for _ in range(rng.range(1, 30)))
 
 
@@ -172,6 +211,10 @@ def classify_seq(case, out):
         ks.append("replace")
     if "T" in ops:
         ks.append("retain")
+    if "N" in ops:
+        ks.append("entry")
+    if "Z" in ops:
+        ks.append("is_empty")
     return ks
 
 
@@ -180,6 +223,8 @@ def corpus_seq():
         # the sequence of frim.rs's own unit test
         "L;E;I 1 1;L;I 1 2;L;I 3 4;L;I 5 6;L;E;R 1;L;R 1;L;T kle 3;L;P 1 1 2 2;L;E",
         "I 1 1;I 2 2;I 3 3;I 4 4;I 5 5;I 6 6;I 7 7;I 8 8;I 9 9;I 10 10;L;R 5;E;T vgt 4;E;G 9;H 1",
+        # entry: vacant, occupied (keeps the value), removed and vacant again; is_empty
+        "Z;N 1 5;N 1 6;G 1;L;Z;R 1;N 1 7;E;R 1;R 1;Z",
     ]
 
 
@@ -206,11 +251,13 @@ ENGINES = [
 EXTRAS = [stress]
 
 LEVEL_TEXT = ("Theorems over ALL interleavings (any number of threads, any programs, any schedule) of a stamped-cell model of "
-              "FrimMap's ArcSwap::rcu writers, single-load readers and single-store replace: the calls ordered by their "
+              "FrimMap's ArcSwap::rcu writers, single-load readers, single-store replace and entry().or_insert_with (a lookup, then - if vacant - "
+              "an rcu insert of its own): the calls ordered by their "
               "effective access form a legal history of a sequential finite map with each call's effect between its call and "
               "return (forward simulation, invariant proof), iteration returns exactly the map state at its guard(), removes "
               "that return a value never outnumber the (re)introductions of the key by more than one; the pre-fix remove() is "
-              "proved non-linearizable by a 7-step witness. Kernel-checked, axiom-free. The model is tied to "
+              "proved non-linearizable by a 7-step witness, and so is filling a vacant entry by an append that does not filter the key out "
+              "(two entries for one key). Kernel-checked, axiom-free. The model is tied to "
               "src/common/frim.rs by replaying thousands of schedules deterministically on the real FrimMap through a pause "
               "point inside the rcu closures.")
 DESIGN_REF = "DESIGN.md section 6, C18"
